@@ -314,9 +314,10 @@ theorem deliverConn_char (b : B) (d : Nat) (m : Msg) (hal : b.alive d = true) (h
     rw [encode_plain _ b.ctr ht hid]
     rfl
 
-/-- what subscriber `sq.1` is handed for message `p` at effective QoS `sq.2`:
-a connection is sent `fwdConn`; an in-process callback is called with the
-message object as it is, RETAIN included (finding E10) -/
+/-- what the loop hands subscriber `sq.1` for a message object with fields `p`
+at effective QoS `sq.2`: a connection is sent `fwdConn`; an in-process callback
+is called with the object as it is at that moment (the live fan-out clears the
+RETAIN flag before the loop: `fanoutLive_char`) -/
 def fwd (p : Pub) (sq : Nat × Nat) : Out :=
   if sq.1 < cbBase then .send sq.1 (.publish (fwdConn p sq.2)) else .call sq.1 { p with qos := sq.2 }
 
@@ -365,6 +366,35 @@ theorem fanout_char (subs : List (Nat × Nat)) :
       · rw [h3]
         simp only [List.map_cons, setQoS_p, fwd_qos]
         simp [fwd, hs, fwdConn]
+
+/-- the message object the live fan-out runs the loop over -/
+theorem loopMsg_eq (m : Msg) :
+    (if m.p.retain then m.setRetain false else m) = ⟨{ m.p with retain := false }, m.dirty⟩ := by
+  obtain ⟨⟨dup, qos, retain, topic, pktid, payload⟩, dirty⟩ := m
+  cases retain <;> rfl
+
+/-- (d) the live fan-out of `onPublish` / `Server.Publish` (RETAIN cleared before
+the loop, restored after it), for a message that has an identifier or needs
+none, and a subscriber list whose connections are all alive: outputs in list
+order, one per entry, RETAIN = 0 for connections and in-process callbacks
+alike; the broker state is unchanged; of the message object only the QoS field
+(and `dirty`) differs afterwards - RETAIN is as it was. -/
+theorem fanoutLive_char (subs : List (Nat × Nat)) (b : B) (m : Msg) (ht : m.p.topic ≠ [])
+    (hid : m.p.pktid ≠ 0 ∨ ∀ sq ∈ subs, sq.2 = 0)
+    (hal : ∀ sq ∈ subs, sq.1 < cbBase → b.alive sq.1 = true) :
+    (fanoutLive b m subs).1 = b ∧
+    (fanoutLive b m subs).2.1.p = { m.p with qos := subs.foldl (fun _ sq => sq.2) m.p.qos } ∧
+    (fanoutLive b m subs).2.2 = subs.map (fwd { m.p with retain := false }) := by
+  obtain ⟨h1, h2, h3⟩ := fanout_char subs b ⟨{ m.p with retain := false }, m.dirty⟩ ht hid hal
+  unfold fanoutLive
+  simp only
+  rw [loopMsg_eq]
+  refine ⟨h1, ?_, h3⟩
+  obtain ⟨⟨dup, qos, retain, topic, pktid, payload⟩, dirty⟩ := m
+  cases retain with
+  | false => simp only [Bool.false_eq_true, ↓reduceIte]; rw [h2]
+  | true => simp only [↓reduceIte, Msg.setRetain]; rw [h2]
+
 /-! ### the representation invariant -/
 
 /-- Representation invariant of the broker model: both tries have unique map
